@@ -573,6 +573,23 @@ def certificate_verify_hash(chk):
                           'a hash other than the one fixed by the protocol version is used'), key='%s %x' % (R, ver))
 
 
+def server_name_rules(chk):
+    """"accepted exactly the chain the peer sent *for the requested server name*": the name given to br_ssl_client_reset() is what the
+    validator matches the certificate against; an empty name means "no name check".  A name that does not fit the engine's buffer
+    must therefore make the reset fail (BR_ERR_BAD_PARAM) - never be dropped silently, which would turn the handshake into one
+    without name verification.  FOLD on the strlen result."""
+    R = 'server-name-kept-or-refused'
+    s = 'src/ssl/ssl_client.c'
+    oblig.run_obligations(chk, [
+        Ob(s, 'br_ssl_client_reset', Call('strlen'), ('pin', 300), ALL(RET(0), NOCALL('br_ssl_engine_hs_reset')), ('pin', 9),
+           'a server name longer than the buffer of the engine: the reset is refused, no handshake starts', rule=R,
+           noinline=('br_ssl_engine_hs_reset', 'br_ssl_engine_fail', 'br_ssl_engine_init_rand')),
+        Ob(s, 'br_ssl_client_reset', Call('strlen'), ('pin', 256), ALL(RET(0), NOCALL('br_ssl_engine_hs_reset')), ('pin', 255),
+           'boundary: 256 characters plus the terminator do not fit the 256-byte buffer, 255 do', rule=R,
+           noinline=('br_ssl_engine_hs_reset', 'br_ssl_engine_fail', 'br_ssl_engine_init_rand')),
+    ])
+
+
 def run(tier):
     chk = report.Check('C03', tier,
                        'Static necessary conditions: in both handshake interpreters every store that sets bit 0 of application_data is preceded, on '
@@ -595,6 +612,7 @@ def run(tier):
     session_invalidation(chk)
     fallback_scsv(chk)
     certificate_verify_hash(chk)
+    server_name_rules(chk)
     from . import c11 as _c11
     oblig.run_obligations(chk, [o for o in _c11.obligations() if 'ecdsa' in o.func])
     _c11.rs_nonzero(chk)
